@@ -23,6 +23,7 @@ type LayerSpec struct {
 	Files               []string // user files (paths relative to the layer directory)
 	RawConfig           string   // when non-empty, written verbatim as layerconfig
 	HasPackages, HasGen bool
+	UpperMirrors        bool // a derived layer's mountpoint directories also exist in its upper directory (real kernel: merged view)
 }
 
 type WorldSpec struct {
@@ -132,6 +133,11 @@ func BuildInput(ws WorldSpec) Input {
 		}
 		if l.HasUpper {
 			dir(lp + "/" + cfg.Upper)
+			if l.UpperMirrors {
+				for _, m := range l.Imports {
+					dir(lp + "/" + cfg.Upper + m.Mount)
+				}
+			}
 		}
 		if l.HasPackages {
 			dir(lp + "/" + cfg.BinPkg)
